@@ -98,7 +98,8 @@ def main():
                 for label, b in (("unpatched", base), ("patched", pat)):
                     shutil.rmtree(work, ignore_errors=True)
                     shutil.copytree(os.path.join(src, "demo"), work)
-                    rc, o = sh(["sh", "./run.sh", b], cwd=work, timeout=600)
+                    first = open(os.path.join(work, "run.sh")).readline()
+                    rc, o = sh(["bash" if "bash" in first else "sh", "./run.sh", b], cwd=work, timeout=600)
                     res[label] = rc
                     print("--- demo", label, "exit", rc)
                     print(o[-1500:])
